@@ -78,7 +78,14 @@ func buildVC(w *World, c *Contract) (vc *FuncVC) {
 		vc.Inputs = append(vc.Inputs, inputSym{p.Name(), p.Type(), v})
 	}
 	h0 := Heap{}
-	e.oldHeap = h0
+	if c.Options["with-init"] {
+		// package-level tables: execute the package initialiser symbolically first, so that
+		// globals hold exactly what the real init puts there (calls to other packages'
+		// initialisers are skipped)
+		e.runInit(fn.Pkg, h0)
+	}
+	e.oldHeap = h0.clone()
+	h0 = e.oldHeap
 	// preconditions
 	for _, cl := range c.byKind("requires") {
 		pf := w.Preds[c.Pkg+"."+cl.Pred]
@@ -87,6 +94,7 @@ func buildVC(w *World, c *Contract) (vc *FuncVC) {
 	}
 	// vacuity guard: the precondition is satisfiable
 	e.oblige(&Obligation{Name: c.Func + ".cover.requires", Kind: "cover", Clause: "requires satisfiable", Goal: "true", Cover: true, Func: c.Func, Pos: e.posOf(fn.Pos())})
+	e.rootArgs = args
 	res := e.execFunction(fn, args, nil, "true", h0.clone())
 	// vacuity guard: the function can return
 	if !c.Options["noreturn"] {
@@ -233,4 +241,25 @@ func shortKey(k string) string {
 		return k[i+1:]
 	}
 	return k
+}
+
+// runInit executes the synthetic init function of pkg on heap h.
+func (e *Engine) runInit(pkg *ssa.Package, h Heap) {
+	initFn := pkg.Func("init")
+	if initFn == nil {
+		return
+	}
+	if g := pkg.Var("init$guard"); g != nil {
+		e.store(h, PtrVal{Base: e.globalRef(g), Root: g.Type().(*types.Pointer).Elem()}, g.Type().(*types.Pointer).Elem(), Sc{"false", SBool})
+	}
+	savePure := e.pure
+	e.pure = true // panic sites inside init are not obligations of the function under contract
+	e.inInit = true
+	e.execFunction(initFn, nil, nil, "true", h)
+	e.inInit = false
+	e.pure = savePure
+	// everything allocated by init is a pre-existing object for the function under contract
+	for k := range e.dirty {
+		delete(e.dirty, k)
+	}
 }
